@@ -22,7 +22,8 @@ package datatransfer
 //@     transportoptions.TransportOptions.optionsLk < graphsync.Transport.dtChannelsLk < graphsync.dtChannel.optionsLk ;
 //@     graphsync.Transport.dtChannelsLk < graphsync.requestIDToChannelIDMap.lk ;
 //@     graphsync.dtChannel.lk < registry.Registry.registryLk ; graphsync.dtChannel.lk < tracing.SpansIndex.spansLk ;
-//@     graphsync.dtChannel.lk < channels.blockIndexCache.lk ; graphsync.dtChannel.lk < channels.progressCache.lk
+//@     graphsync.dtChannel.lk < channels.blockIndexCache.lk ; graphsync.dtChannel.lk < channels.progressCache.lk ;
+//@     channelmonitor.Monitor.lk < channelmonitor.monitoredChannel.shutdownLk
 
 //@ coverage [lock-discipline-is-complete] {C20}: accessors
 //@     -- every function that touches a guarded / atomic field or a declared mutex, or implements an interface method with a declared
@@ -35,6 +36,8 @@ package datatransfer
 
 //@ extern func dyn.CancelFunc
 //@   acquires {C20} nothing -- context.CancelFunc (standard library)
+//@ type Unsubscribe
+//@   nonnil . -- assumed of the pubsub dependency: Subscribe returns a non-nil unsubscribe function
 //@ extern func dyn.Unsubscribe
 //@   acquires {C20} nothing -- the unsubscribe function of the pubsub dependency (its own lock is outside this module)
 //@ extern func dyn.Subscriber
